@@ -304,6 +304,20 @@ pub fn set_yield_hook(f: Option<fn()>) {
     YIELD_HOOK.store(f.map(|f| f as usize).unwrap_or(0), Ordering::SeqCst);
 }
 
+/// Processes that execute runs get an address-space limit (VERIF_MEM_GB, default 16): a change
+/// that makes the code under test allocate without bound then dies at once with an allocation
+/// failure (reported as a run that kills its process) instead of eating the machine's memory.
+pub fn limit_address_space() {
+    let gb: u64 = std::env::var("VERIF_MEM_GB").ok().and_then(|s| s.parse().ok()).unwrap_or(16);
+    if gb == 0 {
+        return;
+    }
+    let lim = libc::rlimit { rlim_cur: gb << 30, rlim_max: gb << 30 };
+    unsafe {
+        libc::setrlimit(libc::RLIMIT_AS, &lim);
+    }
+}
+
 // ---------------------------------------------------------------------------------------------
 // Harness-facing API
 
